@@ -10,6 +10,21 @@ NA = {
 }
 LEVEL = {
     "C01": ("getter == bit-by-bit reference extract for ALL raw values of every layout in the corpus; the solver verdict is complete per layout (no input-dependent loops), the layout corpus is the bound", "4 C01"),
+    "C02": ("with_/set_ == reference scatter, read-back and receiver-unchanged for ALL (raw, value) pairs of every layout in the corpus", "4 C02"),
+    "C03": ("array getter/with_/set_ == reference at lo+i*stride for ALL raw/value/in-range index; for ALL indices >= K the operation cannot return (marker unreachable) and is stopped by a profile-independent panic", "4 C03"),
+    "C04": ("gather/scatter over ordered range lists (and arrays of them) == reference for ALL inputs per layout", "4 C04"),
+    "C05": ("two's-complement read, exact N-bit write, no bit outside the field changes, for ALL raw values and ALL iN values per layout", "4 C05"),
+    "C06": ("raw round trip for ALL raw values of 19 (quick) / 127 (thorough) bases; ZERO/DEFAULT/Default/new, size, align, Copy as ground obligations", "4 C06"),
+    "C07": ("both enum conversions == reference table for ALL N-bit values and ALL variants of every enum in the corpus; no check (incl. unreachable!()) can fail", "4 C07"),
+    "C08": ("enum/custom/nested typed fields: getter == T::new_with_raw_value(reference bits), setter writes T::raw_value() bits, for ALL inputs per layout", "4 C08"),
+    "C09": ("partly claimed: rule-valid declarations must compile (concrete run of the macro in both host profiles); every rule-invalid candidate is either rejected or its accepted expansion must satisfy a soundness spec for ALL inputs, which the solver decides", "4 C09"),
+    "C10": ("partly claimed: rule-valid enums must compile; for every accepted enum the solver decides totality/exactness for ALL raw values, Err-reachability for non-exhaustive ones, representability of every variant", "4 C10"),
+    "C11": ("representation invariant storage < 2^N: base and inductive step are solver queries per layout and operation (ALL states, ALL arguments); raw_value() shows the whole state; re-wrapped value indistinguishable", "4 C11"),
+    "C12": ("one symbolic write from an ARBITRARY state agrees with the reference register (closes all histories by induction on the single-word state) + direct symbolic histories of length 3 (quick) / 4 (thorough); commutation of disjoint writes", "4 C12"),
+    "C13": ("builder()...build() == fold of reference writes from the declared default for ALL argument tuples of every builder-eligible layout in the corpus", "4 C13"),
+    "C14": ("partly claimed: builder offered => every field reads back its argument for ALL argument tuples and (no default) all-ones is buildable; eligible => offered. Not claimed: rejection of incomplete chains by the type checker", "4 C14"),
+    "C16": ("no CBMC property (overflow, shift, assert!, unreachable!, arbitrary-int assertions, pointer checks) of any generated operation can fail for ANY input on a boundary corpus; only an out-of-range index panics", "4 C16"),
+    "C19": ("for ALL raw values the Debug impl hands (struct name, field names in declaration order, getter values, one finish) to core's DebugStruct builder (stubbed by recorders); real text compared natively on sampled raw values", "4 C19"),
 }
 NOTE = "Trusted: rustc/Kani MIR->GOTO translation, CBMC 6.11 + CaDiCaL, arbitrary-int 1.3.0 as locked (its real bodies are executed), the reference register rt/spec.rs (validated on the repository's documented examples each run). Bound: the layout corpus enumerated by the run (see evidence.bounds)."
 
